@@ -71,6 +71,7 @@ PROPS["C20"] = {
         {"name": "C20.val", "test": "TestVerifC20Val", "shards": 4, "gomaxprocs": 8, "bubble": False},
         {"name": "C20.val.race", "test": "TestVerifC20Val", "shards": 4, "gomaxprocs": 8, "bubble": False, "race": True},
         {"name": "C20.len", "test": "TestVerifC20Len", "shards": 4, "bubble": False},
+        {"name": "C20.node", "test": "TestVerifC20Node", "shards": 16},
     ],
 }
 
